@@ -1,10 +1,11 @@
-\* quick exhaustive: 5 designs x explicit target choices, growths {5/6,1,6/5}, <=2 changed components or per-block uniform,
-\* 2 three-step temperature profiles, refusals; 2 successive calls
+\* quick exhaustive: 5 designs x explicit target choices; growths {5/6,1,6/5}, <= 2 changed components or per-block uniform; one 3-step temperature profile with all break points, from reference or input temperature; refusals; 2 successive calls
 CONSTANTS
   Designs <- DesignsQuick
   Growths <- G3
   MaxNonUnit = 2
-  LevelTriples <- TriplesQuick
+  LevelTriples <- TriplesEmit
+  BreakStep = 1
+  FromInput <- FromBoth
   ExplicitTargets = TRUE
   Refusals = TRUE
   MaxLevel = 3
